@@ -247,6 +247,7 @@ def c04_rf18(run):
     rf_inline.rf46(run)
     rf_inline.rf50(run)
     rf_inline.rf51(run)
+    rf_inline.rf56(run)
     rf_fold.rf48(run)
 
 
@@ -259,6 +260,7 @@ def c16_rf16(run):
     rf_proto.rf16j(run)
     rf_proto.rf16k(run)
     rf_iface.rf42b(run)
+    rf_inline.rf56(run)
     rf_dispatch.rf7g(run)
     run.min_instances('RF7g', 60)
 
@@ -311,6 +313,7 @@ def c03_rf11(run):
     rf_iface.rf47(run)
     rf_flow.rf52(run)
     rf_flow.rf53(run)
+    rf_inline.rf56(run)
 
 
 def c06_rf11(run):
